@@ -198,6 +198,13 @@ DispatchExact == [][IsChunkStep =>
      /\ (ms[n].k = "discreq") => (s'.cs = "closed" /\ s'.stops = <<TRUE>>)
      /\ (~Closing(ms[n])) => s'.cs = "connected"]_mcvars
 
+\* vacuity guards: each of these must be VIOLATED (reachable) in its slice; checked by ./check selftest
+NeverCallOk == \A id \in UserCalls : s.cout[id] # "ok"
+NeverCallTimeout == \A id \in UserCalls : s.cout[id] # "TimeoutAPIError"
+NeverPingDeath == ka.dat = None
+NeverConnected == s.cs # "connected"
+NeverDeliveryToNewSub == \A i \in 1..Len(s.d) : s.d[i][1] < 10
+
 Horizon == s.now <= 400
 
 ConnectConfigs == {[noise |-> FALSE, exp |-> "dev", login |-> TRUE, K |-> 20, hist |-> FALSE],
